@@ -33,9 +33,22 @@ import (
 
 var c18Dims = []corev1.ResourceName{corev1.ResourceCPU, corev1.ResourceMemory, corev1.ResourcePods}
 
+var c18Namespaces = []string{"default", "c18x", "c18b"}
+
+// one NodeMetric.Status.PodsMetric entry
+type c18Metric struct {
+	ns, name int
+	m        [2]int64
+}
+
 type c18Pod struct {
 	id, node  int
+	ns, name  int // namespace index / name index: the pod is c18Namespaces[ns] + "/p<name>"; names repeat across namespaces
 	prod      bool
+	cls       int   // rank of the koordinator priority class in the pod sort (free 1, batch 2, mid 3, prod 4)
+	prio      int64 // spec.priority, 0 when unset
+	delCost   int64 // pod-deletion-cost / eviction-cost annotations as the sort reads them (invalid text = 0)
+	evCost    int64
 	hasMetric bool
 	m         [2]int64 // cpu milli, memory bytes
 	s1, s2    bool     // scripted evictor.Filter answers (first call / later calls)
@@ -46,17 +59,25 @@ type c18Pod struct {
 }
 
 type c18Node struct {
-	id       int
-	inPool   bool
-	unsched  bool
-	noFit    bool
-	rawAnno  bool
-	tendency int
-	cap      [3]int64
+	id           int
+	inPool       bool
+	unsched      bool
+	noFit        bool
+	rawAnno      bool
+	rawKind      int   // 0 no raw-allocatable annotation, 1 annotation present and parsable, 2 annotation unparsable
+	ampNum       int64 // status.allocatable = cap * ampNum / 2 on the amplified dims
+	ampDims      [3]bool
+	noPodsInAnno bool     // the annotation names cpu and memory only (what the resource-amplification webhook writes)
+	rawWire      [3]int64 // what the parsed annotation reads as (a resource it does not name reads 0)
+	alloc        [3]int64 // status.allocatable
+	tendency     int
+	cap          [3]int64 // the raw capacity every percentage refers to
 	// per round
 	metricKind int // 0 usable, 1 no NodeMetric object, 2 Status.NodeMetric nil, 3 expired, 4 UpdateTime nil
 	usage      [3]int64
 	prodUsage  [3]int64
+	sys        [2]int64
+	metrics    []c18Metric
 	pods       []*c18Pod
 	obj        *corev1.Node
 }
@@ -148,6 +169,7 @@ type c18Cfg struct {
 	numberOfNodes int
 	dry, dev      bool
 	pct           [3][4]int64 // quarter-percent; -1 = key absent; [dim][low, high, prodLow, prodHigh]
+	wts           [3]int64    // nodePool.ResourceWeights; -1 = key absent
 	useSelector   bool
 	viaNew        bool
 	exclNS        bool
@@ -203,7 +225,32 @@ func c18GenCfg(r *vRand) c18Cfg {
 	}
 	c.dry = r.Chance(1, 25)
 	c.dev = r.Chance(1, 4)
+	c.wts = [3]int64{1, 1, 1}
+	switch r.Intn(10) {
+	case 0, 1, 2:
+		c.wts = [3]int64{int64(r.Range(0, 3)), int64(r.Range(0, 3)), int64(r.Range(0, 3))}
+	case 3:
+		c.wts[r.Intn(3)] = -1
+	case 4:
+		c.wts = [3]int64{-1, -1, -1} // nil map
+	}
 	c.useSelector = r.Chance(1, 5)
+	if r.Chance(1, 8) {
+		// "relapse" stream: static cpu thresholds with a wide node window and a low prod window, anomaly gating on; node 0
+		// is overloaded round after round until the detector lets it be drained, then measured normal, then overloaded again
+		c.relapse = 1 + r.Intn(2)
+		c.abn, c.norm, c.dev, c.dry, c.numberOfNodes, c.useSelector = 2+r.Intn(2), r.Range(1, 3), false, false, 0, false
+		for d := 0; d < 3; d++ {
+			c.pct[d] = [4]int64{-1, -1, -1, -1}
+		}
+		if c.relapse == 1 {
+			c.pct[0] = [4]int64{120, 200, -1, -1} // node 30% / 50%
+		} else {
+			c.pct[0] = [4]int64{200, 380, 40, 120} // node 50% / 95%, prod 10% / 30%
+		}
+		c.viaNew, c.exclNS, c.podSel = false, false, false
+		return c
+	}
 	c.viaNew = r.Chance(1, 12)
 	c.exclNS = c.viaNew && r.Bool()
 	c.podSel = c.viaNew && r.Bool()
@@ -381,27 +428,42 @@ func c18BuildNode(n *c18Node) {
 	for d := 0; d < 3; d++ {
 		raw[c18Dims[d]] = c18Quantity(d, n.cap[d])
 	}
+	n.alloc = n.cap
+	n.rawKind = 0
+	n.rawWire = n.cap
+	if n.rawAnno && n.noPodsInAnno {
+		delete(raw, corev1.ResourcePods)
+		n.rawWire[2] = -1
+	}
 	if n.rawAnno {
 		// amplified allocatable in status, the raw one in the annotation (the code must use the raw one)
 		amp := corev1.ResourceList{}
 		for d := 0; d < 3; d++ {
-			amp[c18Dims[d]] = c18Quantity(d, n.cap[d]*2)
+			if n.ampDims[d] {
+				n.alloc[d] = n.cap[d] * n.ampNum / 2
+			}
+			amp[c18Dims[d]] = c18Quantity(d, n.alloc[d])
 		}
 		node.Status.Allocatable = amp
 		extension.SetNodeRawAllocatable(node, raw)
+		n.rawKind = 1
 	} else {
 		node.Status.Allocatable = raw
+		if n.ampNum == 1 {
+			// an annotation that does not parse: the code falls back to status.allocatable
+			node.Annotations = map[string]string{extension.AnnotationNodeRawAllocatable: "{\"cpu\":"}
+			n.rawKind = 2
+		}
 	}
 	n.obj = node
 }
 
 func c18BuildPod(r *vRand, c c18Cfg, p *c18Pod) {
-	pod := &corev1.Pod{ObjectMeta: metav1.ObjectMeta{Name: fmt.Sprintf("p%d", p.id), Namespace: "default", Labels: map[string]string{}},
+	pod := &corev1.Pod{ObjectMeta: metav1.ObjectMeta{Name: fmt.Sprintf("p%d", p.name), Namespace: c18Namespaces[p.ns], Labels: map[string]string{}},
 		Spec:   corev1.PodSpec{NodeName: fmt.Sprintf("n%d", p.node), Containers: []corev1.Container{{Name: "c"}}},
 		Status: corev1.PodStatus{Phase: corev1.PodRunning}}
 	nsOK, selOK := true, true
-	if c.exclNS && r.Chance(1, 8) {
-		pod.Namespace = "c18x"
+	if c.exclNS && p.ns == 1 {
 		nsOK = false
 	}
 	if c.podSel {
@@ -411,25 +473,58 @@ func c18BuildPod(r *vRand, c c18Cfg, p *c18Pod) {
 			pod.Labels["c18sel"] = "yes"
 		}
 	}
+	setPrio := func(lo, hi int) {
+		// a few distinct values per class so that equal priorities (ties) are common
+		pr := int32(lo + 100*r.Intn(3))
+		if r.Chance(1, 4) {
+			pr = int32(r.Range(lo, hi))
+		}
+		pod.Spec.Priority = &pr
+		p.prio = int64(pr)
+	}
 	if p.prod {
+		p.cls = 4
 		if r.Bool() {
 			pod.Labels[extension.LabelPodPriorityClass] = string(extension.PriorityProd)
 		} else {
-			pr := int32(r.Range(9000, 9999))
-			pod.Spec.Priority = &pr
+			setPrio(9000, 9999)
 		}
 	} else {
-		switch r.Intn(3) {
+		switch r.Intn(4) {
 		case 0:
+			p.cls = 2
 			pod.Labels[extension.LabelPodPriorityClass] = string(extension.PriorityBatch)
 		case 1:
-			pr := int32(r.Range(5000, 5999))
-			pod.Spec.Priority = &pr
+			p.cls = 2
+			setPrio(5000, 5999)
+		case 2:
+			p.cls = 1
+			setPrio(3000, 3999)
 		default:
-			pr := int32(r.Range(7000, 7999))
-			pod.Spec.Priority = &pr
+			p.cls = 3
+			setPrio(7000, 7999)
 		}
 	}
+	// deletion / eviction cost annotations: mostly absent; valid small integers; sometimes text the parsers reject (= 0)
+	cost := func(key string) int64 {
+		if !r.Chance(1, 8) {
+			return 0
+		}
+		if pod.Annotations == nil {
+			pod.Annotations = map[string]string{}
+		}
+		switch r.Intn(6) {
+		case 0:
+			pod.Annotations[key] = []string{"+5", "007", "x", "", "1.5", "99999999999"}[r.Intn(6)]
+			return 0
+		default:
+			v := int64(r.Range(-2, 3))
+			pod.Annotations[key] = fmt.Sprintf("%d", v)
+			return v
+		}
+	}
+	p.delCost = cost("controller.kubernetes.io/pod-deletion-cost")
+	p.evCost = cost(extension.AnnotationEvictionCost)
 	p.f1 = p.s1 && nsOK && selOK
 	p.f2 = p.s2 && nsOK && selOK
 	p.obj = pod
@@ -451,19 +546,17 @@ func c18NodeMetric(n *c18Node, sys [2]int64, now time.Time) *slov1alpha1.NodeMet
 		nm.Status.NodeMetric = &slov1alpha1.NodeMetricInfo{SystemUsage: slov1alpha1.ResourceMap{ResourceList: corev1.ResourceList{
 			corev1.ResourceCPU: c18Quantity(0, sys[0]), corev1.ResourceMemory: c18Quantity(1, sys[1])}}}
 	}
-	for _, p := range n.pods {
-		if p.hasMetric {
-			nm.Status.PodsMetric = append(nm.Status.PodsMetric, &slov1alpha1.PodMetricInfo{Namespace: p.obj.Namespace, Name: p.obj.Name,
-				PodUsage: slov1alpha1.ResourceMap{ResourceList: corev1.ResourceList{
-					corev1.ResourceCPU: c18Quantity(0, p.m[0]), corev1.ResourceMemory: c18Quantity(1, p.m[1])}}})
-		}
+	for _, e := range n.metrics {
+		nm.Status.PodsMetric = append(nm.Status.PodsMetric, &slov1alpha1.PodMetricInfo{Namespace: c18Namespaces[e.ns], Name: fmt.Sprintf("p%d", e.name),
+			PodUsage: slov1alpha1.ResourceMap{ResourceList: corev1.ResourceList{
+				corev1.ResourceCPU: c18Quantity(0, e.m[0]), corev1.ResourceMemory: c18Quantity(1, e.m[1])}}})
 	}
 	return nm
 }
 
 // ---- round generation ----
 
-func c18GenRound(r *vRand, c c18Cfg, nodes []*c18Node, podID *int, now time.Time, lister *c18Lister, ev *c18Evictor) {
+func c18GenRound(r *vRand, c c18Cfg, rd int, relapsePhase *int, nodes []*c18Node, podID *int, now time.Time, lister *c18Lister, ev *c18Evictor) {
 	lister.m = map[string]*slov1alpha1.NodeMetric{}
 	ev.byKey = map[string]*c18Pod{}
 	ev.log = nil
@@ -498,47 +591,154 @@ func c18GenRound(r *vRand, c c18Cfg, nodes []*c18Node, podID *int, now time.Time
 		if tend == 2 && k < 2 {
 			k += 2
 		}
+		forceProd := -1 // -1 free, 0 all non-prod, 1 all prod
+		if c.relapse > 0 {
+			n.metricKind, n.unsched = 0, false
+			hot := n.id == 0 && *relapsePhase != 1
+			switch {
+			case hot:
+				// 44%..62% of the cpu in 4-5 pods with metrics: over node high 50% mostly (relapse 1) / over prod high 30% (relapse 2)
+				level[0], level[1], k = int64(r.Range(34, 40)), int64(r.Range(0, 20)), r.Range(4, 5)
+				forceProd = c.relapse - 1
+			case n.id == 0:
+				level[0], level[1], k = int64(r.Range(22, 30)), int64(r.Range(0, 20)), r.Range(2, 4)
+				if c.relapse == 2 {
+					level[0] = int64(r.Range(8, 16))
+				}
+				forceProd = c.relapse - 1
+			default:
+				level[0], level[1] = int64(r.Range(0, 10)), int64(r.Range(0, 20))
+				forceProd = 0
+			}
+		}
 		n.pods = nil
-		weights := make([]int64, k)
-		wsum := int64(r.Range(0, 3)) // system share
+		// namespace/name: names are unique per namespace only; a pod may share its name with an earlier pod of the
+		// same node that lives in another namespace (prod + non-prod and same-class pairs)
+		usedNS := map[int]map[int]bool{} // name -> namespaces taken on this node
 		for i := 0; i < k; i++ {
 			*podID++
-			p := &c18Pod{id: *podID, node: n.id, prod: r.Bool(), hasMetric: !r.Chance(1, 7), s1: !r.Chance(1, 8), evictOK: !r.Chance(1, 12)}
+			p := &c18Pod{id: *podID, node: n.id, name: *podID, prod: r.Bool(), hasMetric: !r.Chance(1, 7), s1: !r.Chance(1, 8), evictOK: !r.Chance(1, 12)}
+			if r.Chance(1, 6) {
+				p.ns = 2
+			}
+			if c.exclNS && r.Chance(1, 8) {
+				p.ns = 1
+			}
+			if len(n.pods) > 0 && r.Chance(1, 4) {
+				q := n.pods[r.Intn(len(n.pods))]
+				var free []int64
+				for ns := 0; ns < 3; ns++ {
+					if !usedNS[q.name][ns] {
+						free = append(free, int64(ns))
+					}
+				}
+				if len(free) > 0 {
+					p.name, p.ns = q.name, int(r.Pick(free))
+					if r.Chance(2, 3) {
+						p.prod = !q.prod
+					} else {
+						p.prod = q.prod
+					}
+					if r.Chance(3, 4) {
+						p.hasMetric = true
+					}
+				}
+			}
+			if usedNS[p.name] == nil {
+				usedNS[p.name] = map[int]bool{}
+			}
+			usedNS[p.name][p.ns] = true
 			p.s2 = p.s1
 			if r.Chance(1, 15) {
 				p.s2 = !p.s1
 			}
+			if forceProd >= 0 {
+				p.prod = forceProd == 1
+				if n.id == 0 {
+					p.hasMetric, p.s1, p.s2, p.evictOK = true, true, true, true
+				}
+			}
 			c18BuildPod(r, c, p)
 			n.pods = append(n.pods, p)
 			ev.byKey[p.obj.Namespace+"/"+p.obj.Name] = p
+		}
+		// metric entries: one per pod with a metric; sometimes a second (earlier, overwritten) entry for the same pod,
+		// sometimes an entry whose pod is not assigned to the node (fresh name, or the name of one of the node's pods in
+		// a namespace where the node has no such pod)
+		n.metrics = nil
+		for _, p := range n.pods {
 			if p.hasMetric {
-				weights[i] = int64(r.Range(0, 4))
-				wsum += weights[i]
+				n.metrics = append(n.metrics, c18Metric{ns: p.ns, name: p.name})
+				if r.Chance(1, 25) {
+					n.metrics = append(n.metrics, c18Metric{ns: p.ns, name: p.name})
+				}
 			}
 		}
-		var sys [2]int64
-		n.usage, n.prodUsage = [3]int64{}, [3]int64{}
+		if r.Chance(1, 8) {
+			*podID++
+			e := c18Metric{ns: r.Intn(3), name: *podID}
+			if len(n.pods) > 0 && r.Chance(2, 3) {
+				q := n.pods[r.Intn(len(n.pods))]
+				for ns := 0; ns < 3; ns++ {
+					if !usedNS[q.name][ns] {
+						e = c18Metric{ns: ns, name: q.name}
+					}
+				}
+			}
+			n.metrics = append(n.metrics, e)
+		}
+		if len(n.metrics) > 1 {
+			perm := r.Perm(len(n.metrics))
+			sh := make([]c18Metric, len(n.metrics))
+			for i, j := range perm {
+				sh[i] = n.metrics[j]
+			}
+			n.metrics = sh
+		}
+		weights := make([]int64, len(n.metrics))
+		wsum := int64(r.Range(0, 3)) // system share
+		for i := range n.metrics {
+			weights[i] = int64(r.Range(0, 4))
+			wsum += weights[i]
+		}
+		n.sys = [2]int64{}
 		for d := 0; d < 2; d++ {
 			unit := n.cap[d] / 64
 			rest := level[d]
-			for i, p := range n.pods {
-				if p.hasMetric && wsum > 0 {
+			for i := range n.metrics {
+				if wsum > 0 {
 					sh := level[d] * weights[i] / wsum
-					p.m[d] = sh * unit
+					n.metrics[i].m[d] = sh * unit
 					rest -= sh
 				}
 			}
-			sys[d] = rest * unit
+			n.sys[d] = rest * unit
 			if !c.dev && r.Chance(1, 3) {
-				sys[d] += int64(r.Range(0, int(unit/2)+1)) // off-grid values in static mode
+				n.sys[d] += int64(r.Range(0, int(unit/2)+1)) // off-grid values in static mode
 			}
-			n.usage[d] = sys[d]
+		}
+		// what the oracle takes as measured: every reported entry counts for the node; an entry counts as prod usage
+		// iff its namespace AND name are those of a prod pod assigned to the node; a pod's own metric is the last
+		// entry carrying its namespace/name
+		n.usage, n.prodUsage = [3]int64{}, [3]int64{}
+		for _, p := range n.pods {
+			p.hasMetric, p.m = false, [2]int64{}
+		}
+		for d := 0; d < 2; d++ {
+			n.usage[d] = n.sys[d]
+		}
+		for _, e := range n.metrics {
+			isProd := false
 			for _, p := range n.pods {
-				if p.hasMetric {
-					n.usage[d] += p.m[d]
-					if p.prod {
-						n.prodUsage[d] += p.m[d]
-					}
+				if p.ns == e.ns && p.name == e.name {
+					p.hasMetric, p.m = true, e.m
+					isProd = isProd || p.prod
+				}
+			}
+			for d := 0; d < 2; d++ {
+				n.usage[d] += e.m[d]
+				if isProd {
+					n.prodUsage[d] += e.m[d]
 				}
 			}
 		}
@@ -548,6 +748,7 @@ func c18GenRound(r *vRand, c c18Cfg, nodes []*c18Node, podID *int, now time.Time
 				n.prodUsage[2]++
 			}
 		}
+		sys := n.sys
 		if nm := c18NodeMetric(n, sys, now); nm != nil {
 			lister.m[n.obj.Name] = nm
 		}
@@ -580,7 +781,7 @@ func c18ThrVec(m map[corev1.ResourceName]*resource.Quantity) []int64 {
 
 func c18EmitDets(h *vHarness, tag int, cache *gocache.Cache) {
 	type row struct {
-		id, st       int
+		id, st      int
 		cAbn, cNorm uint32
 	}
 	var rows []row
@@ -634,7 +835,28 @@ func TestVerifC18(t *testing.T) {
 		var all []*c18Node
 		for i := 0; i < nn; i++ {
 			nd := &c18Node{id: i, inPool: !c.useSelector || !r.Chance(1, 4), unsched: r.Chance(1, 10), noFit: r.Chance(1, 10),
-				rawAnno: r.Chance(1, 6), tendency: r.Intn(3)}
+				rawAnno: r.Chance(1, 5), tendency: r.Intn(3), ampNum: 2}
+			if nd.rawAnno {
+				// amplification ratio 1, 1.5, 2 or 3 on cpu only / cpu+memory / every resource
+				nd.ampNum = r.Pick([]int64{2, 3, 4, 4, 6})
+				switch r.Intn(6) {
+				case 0:
+					nd.ampDims = [3]bool{true, true, true}
+				case 1, 2:
+					nd.ampDims = [3]bool{true, true, false}
+				default:
+					nd.ampDims = [3]bool{true, false, false}
+				}
+				// the resource-amplification webhook stores only cpu and memory in the annotation: every other resource
+				// (pods) must keep its status.allocatable value (repaired by fix: 6bbb4ed — the annotation used to be
+				// taken wholesale, so the pods capacity of an amplified node read 0)
+				if r.Chance(1, 2) {
+					nd.noPodsInAnno = true
+					nd.ampDims[2] = false
+				}
+			} else if r.Chance(1, 30) {
+				nd.ampNum = 1 // marks "annotation present but unparsable"
+			}
 			if c.dev {
 				nd.cap = [3]int64{r.Pick([]int64{4096, 8192, 16384, 65536}), r.Pick([]int64{1 << 32, 1 << 33, 1 << 34, 1 << 36}), r.Pick([]int64{4, 8, 16, 32})}
 			} else {
@@ -654,7 +876,19 @@ func TestVerifC18(t *testing.T) {
 		pool := deschedulerconfig.LowNodeLoadNodePool{Name: "pool", UseDeviationThresholds: c.dev,
 			LowThresholds: c18Thresholds(c, 0), HighThresholds: c18Thresholds(c, 1),
 			ProdLowThresholds: c18Thresholds(c, 2), ProdHighThresholds: c18Thresholds(c, 3),
-			ResourceWeights: map[corev1.ResourceName]int64{corev1.ResourceCPU: 1, corev1.ResourceMemory: 1, corev1.ResourcePods: 1}}
+		}
+		var wout [3]int64
+		for d := 0; d < 3; d++ {
+			if c.wts[d] >= 0 {
+				if pool.ResourceWeights == nil {
+					pool.ResourceWeights = map[corev1.ResourceName]int64{}
+				}
+				pool.ResourceWeights[c18Dims[d]] = c.wts[d]
+				wout[d] = c.wts[d]
+			}
+		}
+		h.Op("wts %s", vInts(wout[:]))
+		h.Tag(fmt.Sprintf("weights:%d,%d,%d", c.wts[0], c.wts[1], c.wts[2]))
 		if c.abn > 0 {
 			pool.AnomalyCondition = &deschedulerconfig.LoadAnomalyCondition{Timeout: metav1.Duration{Duration: time.Hour},
 				ConsecutiveAbnormalities: uint32(c.abn), ConsecutiveNormalities: uint32(c.norm)}
@@ -700,13 +934,22 @@ func TestVerifC18(t *testing.T) {
 		if c.abn >= 2 {
 			rounds = r.Range(3, 8)
 		}
+		relapsePhase := 0 // 0 overloaded until evicted from, 1 one recovered round, 2 overloaded again
+		if c.relapse > 0 {
+			rounds = c.abn + 1 + r.Range(3, 5)
+			h.Tag(fmt.Sprintf("stream:relapse:%d", c.relapse))
+		}
 		podID := 0
 		streakA, streakB := map[int]int{}, map[int]int{}
 		totalA, totalB := map[int]int{}, map[int]int{} // rounds so far in which the node was measured over its (prod) high threshold
+		// reset points by the code's own rule (a source node whose running usage dropped to/under its high threshold while
+		// the eviction loop still had a candidate left is reset; in the prod pass that is the prod detector), per
+		// detector kind (0 node, 1 prod): whether one was seen, and in how many later rounds the node was over again
+		hasReset, sinceReset := [2]map[int]bool{{}, {}}, [2]map[int]int{{}, {}}
 		evictedAny := false
 		for rd := 0; rd < rounds; rd++ {
 			now := time.Now()
-			c18GenRound(r, c, all, &podID, now, lister, ev)
+			c18GenRound(r, c, rd, &relapsePhase, all, &podID, now, lister, ev)
 			var inPool, measured []*c18Node
 			var k8sNodes []*corev1.Node
 			for _, nd := range all {
@@ -731,6 +974,7 @@ func TestVerifC18(t *testing.T) {
 					nOver++
 					streakA[nd.id]++
 					totalA[nd.id]++
+					sinceReset[0][nd.id]++
 				} else {
 					streakA[nd.id] = 0
 				}
@@ -738,6 +982,7 @@ func TestVerifC18(t *testing.T) {
 					nProdOver++
 					streakB[nd.id]++
 					totalB[nd.id]++
+					sinceReset[1][nd.id]++
 				} else {
 					streakB[nd.id] = 0
 				}
@@ -776,11 +1021,14 @@ func TestVerifC18(t *testing.T) {
 			// ---- ops (inputs) of the round, including the observed processing order
 			h.Op("round %d %d", len(inPool), vB(nodeFit))
 			for _, nd := range measured {
-				h.Op("node %d %d %d %s %s %s", nd.id, vB(nd.unsched), vB(nd.noFit), vInts(nd.cap[:]), vInts(nd.usage[:]), vInts(nd.prodUsage[:]))
+				h.Op("node %d %d %d %s %d %s %s", nd.id, vB(nd.unsched), vB(nd.noFit), vInts(nd.alloc[:]), nd.rawKind, vInts(nd.rawWire[:]), vInts(nd.sys[:]))
 			}
 			for _, nd := range measured {
 				for _, p := range nd.pods {
-					h.Op("pod %d %d %d %d %d %d %d %d %d", nd.id, p.id, vB(p.prod), vB(p.hasMetric), p.m[0], p.m[1], vB(p.f1), vB(p.f2), vB(p.evictOK))
+					h.Op("pod %d %d %d %d %d %d %d %d %d %d %d %d", nd.id, p.id, p.ns, p.name, vB(p.prod), vB(p.f1), vB(p.f2), vB(p.evictOK), p.cls, p.prio, p.delCost, p.evCost)
+				}
+				for _, e := range nd.metrics {
+					h.Op("metric %d %d %d %d %d", nd.id, e.ns, e.name, e.m[0], e.m[1])
 				}
 			}
 			seen := map[*c18Pod]bool{}
@@ -835,6 +1083,66 @@ func TestVerifC18(t *testing.T) {
 				}
 			}
 			for _, nd := range inPool {
+				nu, ok := usages[nd.obj.Name]
+				if !ok {
+					continue
+				}
+				var v []int64
+				for _, m := range []map[corev1.ResourceName]*resource.Quantity{nu.usage, nu.prodUsage} {
+					for d := 0; d < 3; d++ {
+						q, ok := m[c18Dims[d]]
+						switch {
+						case !ok || q == nil:
+							v = append(v, -1)
+						case d == 0:
+							v = append(v, q.MilliValue())
+						default:
+							v = append(v, q.Value())
+						}
+					}
+				}
+				h.Obs("use %d %s", nd.id, vInts(v))
+				sameName := false
+				for i, p := range nd.pods {
+					for _, q := range nd.pods[:i] {
+						if p.name == q.name {
+							sameName = true
+							if p.prod != q.prod {
+								h.Tag("node:same-name-prod+nonprod")
+							} else {
+								h.Tag("node:same-name-same-class")
+							}
+						}
+					}
+				}
+				if !sameName {
+					h.Tag("node:names-unique")
+				}
+				if len(nd.metrics) > 0 {
+					orphan, dup := false, false
+					for i, e := range nd.metrics {
+						own := false
+						for _, p := range nd.pods {
+							own = own || (p.ns == e.ns && p.name == e.name)
+						}
+						orphan = orphan || !own
+						for _, f := range nd.metrics[:i] {
+							dup = dup || (f.ns == e.ns && f.name == e.name)
+						}
+					}
+					if orphan {
+						h.Tag("metric:entry-without-assigned-pod")
+					}
+					if dup {
+						h.Tag("metric:duplicate-entry")
+					}
+				}
+				h.Tag(fmt.Sprintf("node:rawkind:%d", nd.rawKind))
+				if nd.rawKind == 1 {
+					h.Tag(fmt.Sprintf("node:amplified:x%d/2:cpu=%d,mem=%d,pods=%d", nd.ampNum, vB(nd.ampDims[0]), vB(nd.ampDims[1]), vB(nd.ampDims[2])))
+				}
+			}
+			for _, nd := range inPool {
 				tt, ok := implThr[nd.obj.Name]
 				if !ok {
 					continue
@@ -867,6 +1175,14 @@ func TestVerifC18(t *testing.T) {
 			c18EmitDets(h, 0, pl.nodeAnomalyDetectors)
 			c18EmitDets(h, 1, pl.prodAnomalyDetectors)
 			h.Obs("end")
+			if c.relapse > 0 {
+				switch {
+				case relapsePhase == 0 && nEv > 0:
+					relapsePhase = 1
+				case relapsePhase == 1:
+					relapsePhase = 2
+				}
+			}
 			if nEv > 3 {
 				h.Tag("evictions:4+")
 			} else {
@@ -898,6 +1214,8 @@ func TestVerifC18(t *testing.T) {
 			var usedA, usedB [3]int64
 			lastFilter := map[*c18Pod]int{} // 0 never called, 1 false, 2 true
 			filterAsked := map[*c18Pod]int{}
+			firstFilter := map[*c18Pod]bool{}      // answer of the classification-time call
+			evictedFrom := [2]map[int]bool{{}, {}} // source nodes of this round per pass (0 node pass, 1 prod pass)
 			// "all nodes are underused" (every node in an underused class, none overloaded) is a special case of
 			// "no node is overloaded", so two clauses suffice.
 			if nEv > 0 && ((nOver == 0 && nProdOver == 0) || (nUnder == 0 && nProdUnder == 0)) {
@@ -906,6 +1224,9 @@ func TestVerifC18(t *testing.T) {
 			}
 			for _, e := range log {
 				if !e.evict {
+					if filterAsked[e.pod] == 0 {
+						firstFilter[e.pod] = e.res
+					}
 					filterAsked[e.pod]++
 					if e.res {
 						lastFilter[e.pod] = 2
@@ -976,10 +1297,22 @@ func TestVerifC18(t *testing.T) {
 						h.Fail("C18:anomaly-too-few-detections", "round %d: pod %d evicted from node %d which was over its high threshold in only %d round(s) of the whole history; consecutiveAbnormalities=%d",
 							rd, p.id, nd.id, tot, c.abn)
 					}
-					if st < c.abn {
+					kd := 0
+					if !kindA {
+						kd = 1
+					}
+					switch {
+					case st >= c.abn:
+					case hasReset[kd][nd.id] && sinceReset[kd][nd.id] < c.abn:
+						// not one of the recorded gap patterns: the detector was due to be reset and has not seen enough
+						// over-threshold rounds since
+						h.Fail("C18:anomaly-detector-not-reset", "round %d: pod %d evicted from node %d (prod pass: %v) which was over its high threshold in only the last %d consecutive round(s) and in only %d round(s) since it was drained under the threshold (detector due to be reset); consecutiveAbnormalities=%d",
+							rd, p.id, nd.id, !kindA, st, sinceReset[kd][nd.id], c.abn)
+					default:
 						h.Fail("C18:anomaly-not-consecutive", "round %d: pod %d evicted from node %d which was over its high threshold in only the last %d consecutive round(s); consecutiveAbnormalities=%d",
 							rd, p.id, nd.id, st, c.abn)
 					}
+					evictedFrom[kd][nd.id] = true
 				}
 				if e.res && p.hasMetric {
 					q := [3]int64{p.m[0], p.m[1], 1}
@@ -998,6 +1331,57 @@ func TestVerifC18(t *testing.T) {
 					runU[nd.id], runPU[nd.id] = u, pu
 				}
 			}
+			// ---- the code's own reset rule, evaluated on the oracle's running estimates
+			for kd := 0; kd < 2 && c.abn >= 2 && !c.dry; kd++ {
+				for _, nd := range measured {
+					id := nd.id
+					if !evictedFrom[kd][id] {
+						continue
+					}
+					run, high := runU[id], thr[id][1]
+					if kd == 1 {
+						run, high = runPU[id], thr[id][3]
+					}
+					if c.anyAbove(run, high) {
+						h.Tag("reset-rule:source-still-over")
+						continue
+					}
+					if nodeFit {
+						h.Tag("reset-rule:drained,nodefit(candidates-unknown)")
+						continue
+					}
+					cand, done := 0, 0
+					for _, p := range nd.pods {
+						if (kd == 0 || p.prod) && filterAsked[p] >= 1 && firstFilter[p] {
+							cand++
+							if filterAsked[p] >= 2 {
+								done++
+							}
+						}
+					}
+					if done >= cand {
+						h.Tag("reset-rule:drained-by-last-candidate(no-reset)")
+						continue
+					}
+					h.Tag(fmt.Sprintf("reset-rule:drained-with-candidates-left:%d", kd))
+					hasReset[kd][id], sinceReset[kd][id] = true, 0
+					cache := pl.nodeAnomalyDetectors
+					if kd == 1 {
+						cache = pl.prodAnomalyDetectors
+					}
+					if obj, ok := cache.Get(nd.obj.Name); ok {
+						det := obj.(anomaly.Detector)
+						var cAbn uint32
+						if bd, ok := det.(*anomaly.BasicDetector); ok {
+							cAbn = bd.Counter().ConsecutiveAbnormalities
+						}
+						if det.State() == anomaly.StateAnomaly || cAbn > 0 {
+							h.Fail("C18:anomaly-detector-not-reset", "round %d: node %d was drained to %v <= high %v (prod pass: %v) with candidates left, but its detector carries state anomaly=%v abnormal marks=%d into the next round",
+								rd, id, run, high, kd == 1, det.State() == anomaly.StateAnomaly, cAbn)
+						}
+					}
+				}
+			}
 		}
 		if evictedAny {
 			h.Nontrivial()
@@ -1007,4 +1391,97 @@ func TestVerifC18(t *testing.T) {
 	h.Close("one node pool (static or deviation thresholds on cpu/memory/pods, node and prod level, optional anomaly condition, NumberOfNodes, " +
 		"node selector, dry-run) and a history of 1-8 balance rounds over 1-8 nodes with 0-5 pods each (sticky load tendencies, missing/expired/nil " +
 		"NodeMetrics, pods without metrics, filter and evictor answers scripted, NodeFit per round); non-trivial = at least one Evict call in the history; distinct by op lines")
+}
+
+// TestVerifC18DetExhaustive: EXHAUSTIVE small scope for the anomaly gating glue.  Every sequence of a fixed length over
+// {filterRealAbnormalNodes, tryMarkNodesAsNormal, resetNodesAsNormal} on one node, for every anomaly condition with
+// consecutiveAbnormalities in 0..3 and consecutiveNormalities in 0..2, through the package's own three functions (which
+// create the detector exactly as processOneNodePool does), compared mark by mark with the model's detector.
+func TestVerifC18DetExhaustive(t *testing.T) {
+	h := vOpen("C18")
+	if h == nil {
+		t.Skip("VERIF_OUT not set")
+	}
+	length := 5
+	if h.Tier == "thorough" {
+		length = 8
+	}
+	seqs := 1
+	for i := 0; i < length; i++ {
+		seqs *= 3
+	}
+	n := seqs * 12
+	ni := NodeInfo{NodeUsage: &NodeUsage{node: &corev1.Node{ObjectMeta: metav1.ObjectMeta{Name: "n0"}}}}
+	for idx := 0; idx < n; idx++ {
+		r := h.Begin(idx)
+		if r == nil {
+			continue
+		}
+		ci, si := idx/seqs, idx%seqs
+		abn, norm := ci/3, ci%3
+		cond := &deschedulerconfig.LoadAnomalyCondition{Timeout: metav1.Duration{Duration: time.Hour},
+			ConsecutiveAbnormalities: uint32(abn), ConsecutiveNormalities: uint32(norm)}
+		cache := gocache.New(time.Hour, time.Hour)
+		h.Op("dcfg %d %d", abn, norm)
+		h.Tag(fmt.Sprintf("cond:%d/%d", abn, norm))
+		streak := 0 // abnormal marks since the last normal mark (a reset does not interrupt: no-op in state OK)
+		wasAnomaly := false
+		everAnomaly := false
+		for i := 0; i < length; i++ {
+			k := si % 3
+			si /= 3
+			h.Op("dmark %d", k)
+			ret := 0
+			switch k {
+			case 0:
+				ret = len(filterRealAbnormalNodes([]NodeInfo{ni}, cache, cond))
+			case 1:
+				tryMarkNodesAsNormal([]NodeInfo{ni}, cache)
+			default:
+				resetNodesAsNormal([]NodeInfo{ni}, cache)
+			}
+			obj, ok := cache.Get("n0")
+			if !ok {
+				h.Obs("dst %d -1", ret)
+				if k == 0 && abn != 1 {
+					h.Fail("C18:detector-not-cached", "filterRealAbnormalNodes left no detector for the node (abn=%d)", abn)
+				}
+				continue
+			}
+			det := obj.(*anomaly.BasicDetector)
+			an := det.State() == anomaly.StateAnomaly
+			cn := det.Counter()
+			h.Obs("dst %d %d %d %d", ret, vB(an), cn.ConsecutiveAbnormalities, cn.ConsecutiveNormalities)
+			// oracle (the part of the gating clause the code is expected to meet, cf. anomaly_gating_partial): the node is
+			// let through only in state Anomaly, and the detector turns anomalous only on an abnormal mark that takes the
+			// number of abnormal marks not separated by a normal mark above consecutiveAbnormalities
+			switch k {
+			case 0:
+				streak++
+				if (ret == 1) != an {
+					h.Fail("C18:detector-gate-mismatch", "filterRealAbnormalNodes returned %d node(s) with detector anomaly=%v", ret, an)
+				}
+				if an && !wasAnomaly && streak <= abn {
+					h.Fail("C18:anomaly-too-few-detections", "detector turned anomalous after %d abnormal mark(s) since the last normal mark; consecutiveAbnormalities=%d", streak, abn)
+				}
+			case 1:
+				streak = 0
+				if an && !wasAnomaly {
+					h.Fail("C18:detector-anomalous-on-normal-mark", "a normal mark turned the detector anomalous")
+				}
+			default:
+				if an {
+					h.Fail("C18:anomaly-detector-not-reset", "detector still anomalous right after resetNodesAsNormal")
+				}
+			}
+			wasAnomaly = an
+			everAnomaly = everAnomaly || an
+		}
+		if everAnomaly {
+			h.Nontrivial()
+		}
+		h.End()
+	}
+	h.Close(fmt.Sprintf("EXHAUSTIVE: all 3^%d sequences of {abnormal mark via filterRealAbnormalNodes, normal mark via tryMarkNodesAsNormal, "+
+		"reset via resetNodesAsNormal} x consecutiveAbnormalities 0..3 x consecutiveNormalities 0..2 on one node; non-trivial = the detector is anomalous at some point", length))
 }
